@@ -135,4 +135,10 @@ append([], L, L).
 append([H|T], L, [H|R]) :- append(T, L, R).
 select(E, [E|Xs], Xs).
 select(E, [X|Xs], [X|Ys]) :- select(E, Xs, Ys).
+repeat.
+repeat :- repeat.
+nth0(N, L, E) :- '$ref_nth'(L, 0, N, E).
+nth1(N, L, E) :- '$ref_nth'(L, 1, N, E).
+'$ref_nth'([E|_], I, I, E).
+'$ref_nth'([_|T], I, N, E) :- J is I + 1, '$ref_nth'(T, J, N, E).
 `
